@@ -287,8 +287,14 @@ def gen_case(rng, tier='quick', threads=False):
     clean = (threads and rng.random() < 0.75) or rng.random() < 0.4
     dict_in = [[k, data_tree(rng, 2, True)] for k in rng.sample(DATA_KEYS, rng.choice([0, 1, 1, 2]))]
     vars_ = [[k, data_tree(rng, 2, True)] for k in rng.sample(VAR_KEYS, rng.choice([0, 1, 2]))]
+    set_var = (not threads) and rng.random() < 0.05
+    if set_var:
+        # a yaml !!set in config vars (ruamel: CommentedSet - not a `set` subclass); sets are outside
+        # the Coq model, so these cases are checked by the monitors only
+        vars_.append(['vs', {'s': sorted(rng.sample(range(10), rng.randint(0, 3)))}])
     case = {'dict_in': dict_in, 'vars': vars_, 'shortcut': (not threads) and rng.random() < 0.3,
-            'parser': None, 'sc_parser_args': None, 'args_in': None}
+            'parser': None, 'sc_parser_args': None, 'args_in': None,
+            'vars_yaml': bool(vars_) and rng.random() < 0.6}
     # context parser of main, and where its argument list comes from: the caller's args_in,
     # the shortcut's parser_args (a list held by config.shortcuts), or both
     if rng.random() < 0.4:
@@ -318,6 +324,10 @@ def gen_case(rng, tier='quick', threads=False):
             else:
                 st = {'kind': 'merge', 'in': [], 'pairs': [['argList', {'l': [rng.randint(0, 9)]}]]}
             steps.insert(rng.randint(0, min(1, len(steps))), st)
+        if set_var and (pname == 'main' or rng.random() < 0.4):
+            at = rng.randint(0, len(steps))
+            steps[at:at] = [{'kind': 'configvars'},
+                            {'kind': 'add', 'in': [], 'set': 'vs', 'addMe': rng.randint(10, 19)}]
         case[pname] = steps
     if threads:
         n0, n1 = len(case['main']), len(case['other'])
